@@ -24,6 +24,9 @@ Definition set_delay (now : tv) (d : Z) : tv :=
 Definition timer_start (now : tv) (t0 maxretr : Z) : timer :=
   {| deadline := set_delay now (w32 t0); delay := w32 t0; retrans := 1; maxr := w32 maxretr |}.
 
+(** stun_timer_start_reliable: a reliable transport never retransmits — [stun_timer_start (timer, initial_timeout, 0)] *)
+Definition timer_start_reliable (now : tv) (t0 : Z) : timer := timer_start now t0 0.
+
 Definition remainder (t : timer) (now : tv) : Z :=
   if sec now >? sec (deadline t) then 0 else
   let d := w32 (sec (deadline t) - sec now) in
